@@ -147,3 +147,21 @@ def pipe_trace(workdir, name, trace_path, design=None, timeout=300, extra_invs=(
         except OSError:
             pass
     return r
+
+
+def order_trace(workdir, name, trace_path, check_bound=True, timeout=1200):
+    """Validate drv_order records against SluOrder (spec as oracle)."""
+    stage(workdir)
+    mod = "TROrd_" + name
+    with open(os.path.join(workdir, mod + ".tla"), "w") as f:
+        f.write("---- MODULE %s ----\nEXTENDS SluOrderTrace\n====\n" % mod)
+    cfg = os.path.join(workdir, mod + ".cfg")
+    with open(cfg, "w") as f:
+        f.write("CONSTANT CheckBound = %s\nSPECIFICATION TSpec\nCONSTRAINT Progress\nPOSTCONDITION Accepted\nCHECK_DEADLOCK FALSE\n" % ("TRUE" if check_bound else "FALSE"))
+    r = run(workdir, mod, cfg, workers=1, timeout=timeout, env={"TRACE": trace_path}, xmx="3g", xss="64m")
+    for suffix in (".tla", ".cfg"):
+        try:
+            os.remove(os.path.join(workdir, mod + suffix))
+        except OSError:
+            pass
+    return r
